@@ -229,13 +229,13 @@ theorem taskOk_cells {n nres : Nat} {masks : List Mask} {u t : Task} (h : TaskOk
       simp only [hu', Bool.false_eq_true, if_false]
       rw [conflicts_comm]; exact conflicts_none _
 
-/-- **Claim-respecting tasks that may run together commute.** -/
-theorem apTask_comm (n nres : Nat) (masks : List Mask) (g : Task → (SCell → Nat) → SCell → Nat)
+/-- **Claim-respecting tasks that may run together commute** (each with its own behaviour). -/
+theorem apTask_comm2 (n nres : Nat) (masks : List Mask) (g1 g2 : Task → (SCell → Nat) → SCell → Nat)
     {u t : Task} (h : TaskOk n nres masks u t) (s : SCell → Nat) :
-    apTask n nres masks g u (apTask n nres masks g t s) = apTask n nres masks g t (apTask n nres masks g u s) := by
+    apTask n nres masks g1 u (apTask n nres masks g2 t s) = apTask n nres masks g2 t (apTask n nres masks g1 u s) := by
   have hc := taskOk_cells h
   -- what either task reads is untouched by the other
-  have hread_u : ∀ c, u.claimSCell n nres masks c ≠ .none → apTask n nres masks g t s c = s c := by
+  have hread_u : ∀ c, u.claimSCell n nres masks c ≠ .none → apTask n nres masks g2 t s c = s c := by
     intro c hne
     unfold apTask
     have := hc c
@@ -243,7 +243,7 @@ theorem apTask_comm (n nres : Nat) (masks : List Mask) (g : Task → (SCell → 
     | none => exact absurd hu hne
     | immutable => rw [hu] at this; cases ht : t.claimSCell n nres masks c <;> simp_all [Cl.conflicts]
     | mutable => rw [hu] at this; cases ht : t.claimSCell n nres masks c <;> simp_all [Cl.conflicts]
-  have hread_t : ∀ c, t.claimSCell n nres masks c ≠ .none → apTask n nres masks g u s c = s c := by
+  have hread_t : ∀ c, t.claimSCell n nres masks c ≠ .none → apTask n nres masks g1 u s c = s c := by
     intro c hne
     unfold apTask
     have := hc c
@@ -251,13 +251,13 @@ theorem apTask_comm (n nres : Nat) (masks : List Mask) (g : Task → (SCell → 
     | none => exact absurd ht hne
     | immutable => rw [ht] at this; cases hu : u.claimSCell n nres masks c <;> simp_all [Cl.conflicts]
     | mutable => rw [ht] at this; cases hu : u.claimSCell n nres masks c <;> simp_all [Cl.conflicts]
-  have hview_u : (fun c => if u.claimSCell n nres masks c = .none then 0 else apTask n nres masks g t s c) =
+  have hview_u : (fun c => if u.claimSCell n nres masks c = .none then 0 else apTask n nres masks g2 t s c) =
       (fun c => if u.claimSCell n nres masks c = .none then 0 else s c) := by
     funext c
     by_cases hn : u.claimSCell n nres masks c = .none
     · simp [hn]
     · simp [hn, hread_u c hn]
-  have hview_t : (fun c => if t.claimSCell n nres masks c = .none then 0 else apTask n nres masks g u s c) =
+  have hview_t : (fun c => if t.claimSCell n nres masks c = .none then 0 else apTask n nres masks g1 u s c) =
       (fun c => if t.claimSCell n nres masks c = .none then 0 else s c) := by
     funext c
     by_cases hn : t.claimSCell n nres masks c = .none
@@ -265,11 +265,11 @@ theorem apTask_comm (n nres : Nat) (masks : List Mask) (g : Task → (SCell → 
     · simp [hn, hread_t c hn]
   funext cell
   show (if u.claimSCell n nres masks cell = .mutable then
-      g u (fun c => if u.claimSCell n nres masks c = .none then 0 else apTask n nres masks g t s c) cell
-    else apTask n nres masks g t s cell) =
+      g1 u (fun c => if u.claimSCell n nres masks c = .none then 0 else apTask n nres masks g2 t s c) cell
+    else apTask n nres masks g2 t s cell) =
     (if t.claimSCell n nres masks cell = .mutable then
-      g t (fun c => if t.claimSCell n nres masks c = .none then 0 else apTask n nres masks g u s c) cell
-    else apTask n nres masks g u s cell)
+      g2 t (fun c => if t.claimSCell n nres masks c = .none then 0 else apTask n nres masks g1 u s c) cell
+    else apTask n nres masks g1 u s cell)
   rw [hview_u, hview_t]
   have hcc := hc cell
   by_cases hu : u.claimSCell n nres masks cell = .mutable
@@ -287,6 +287,11 @@ theorem apTask_comm (n nres : Nat) (masks : List Mask) (g : Task → (SCell → 
     · simp only [hu, ht, if_false]
       unfold apTask
       simp [hu, ht]
+
+theorem apTask_comm (n nres : Nat) (masks : List Mask) (g : Task → (SCell → Nat) → SCell → Nat)
+    {u t : Task} (h : TaskOk n nres masks u t) (s : SCell → Nat) :
+    apTask n nres masks g u (apTask n nres masks g t s) = apTask n nres masks g t (apTask n nres masks g u s) :=
+  apTask_comm2 n nres masks g g h s
 
 /-! ### the index form of the phases (what the driver prints) names exactly these tasks -/
 
